@@ -34,9 +34,9 @@ Hypotheses (explicit; all hold of IEEE f32/f64 as stated):
                     the MEAN is not NaN (`averageNoNaN_of_mean`) — the clamp never creates a NaN.
                     It is a hypothesis, not proved for floats.
 
-NOT proved: anything new for Ward on floats (weighted is handled in `Props/C01Weighted.lean`; Ward's `ChainReducible` is still false under
-rounding; the crate does not route around that) — for those the claim keeps resting on the
-correspondence run and the structural validator.  Not proved: `AverageNoNaN` for `Float`/`Float32`.
+NOT proved here: weighted is handled in `Props/C01Weighted.lean`; Ward — whose `ChainReducible` was
+false under rounding in the same way, a second genuine defect repaired by the second `fix:` commit of
+the crate — in `Props/C01Ward.lean`.  Not proved: `AverageNoNaN` for `Float`/`Float32`.
 
 Also here (`UnclampedDefect`): a model-level witness of the DEFECT.  On a toy number type with a
 4-bit significand rounding toward zero (`UnclampedDefect.truncNum`, which satisfies `OrderLaws`) the unclamped
